@@ -151,6 +151,37 @@ fn vary_poly(p: &Poly, sel: u64) -> Poly {
     Poly { ext, holes }
 }
 
+/// The polygon as a Rect or a Triangle when it is one (no holes; collinear vertices on its sides ignored), else itself:
+/// the same point set through another geometry type.
+pub fn as_simple_type(p: &Poly) -> G {
+    if !p.holes.is_empty() || p.ext.len() < 4 {
+        return G::Polygon(p.clone());
+    }
+    let open = &p.ext[..p.ext.len() - 1];
+    let n = open.len();
+    // corners = vertices where the ring turns
+    let corners: Vec<C> = (0..n)
+        .filter(|i| {
+            let (a, b, c) = (open[(i + n - 1) % n], open[*i], open[(i + 1) % n]);
+            (b.0 - a.0) * (c.1 - b.1) - (b.1 - a.1) * (c.0 - b.0) != 0
+        })
+        .map(|i| open[i])
+        .collect();
+    match corners.len() {
+        3 => G::Triangle(corners[0], corners[1], corners[2]),
+        4 => {
+            let (x0, x1) = (corners.iter().map(|c| c.0).min().unwrap(), corners.iter().map(|c| c.0).max().unwrap());
+            let (y0, y1) = (corners.iter().map(|c| c.1).min().unwrap(), corners.iter().map(|c| c.1).max().unwrap());
+            if corners.iter().all(|c| (c.0 == x0 || c.0 == x1) && (c.1 == y0 || c.1 == y1)) {
+                G::Rect((x0, y0), (x1, y1))
+            } else {
+                G::Polygon(p.clone())
+            }
+        }
+        _ => G::Polygon(p.clone()),
+    }
+}
+
 /// The `sel`-th re-representation of `g` (deterministic in `sel`): ring start
 /// and direction changed, Rect/Triangle as Polygon, Line as LineString,
 /// singleton Multi*, one-member collection. Always the same point set.
@@ -185,7 +216,7 @@ pub fn variant(g: &G, sel: u64) -> G {
             0 => G::Polygon(vary_poly(p, sub)),
             1 => G::MultiPolygon(vec![vary_poly(p, sub)]),
             2 => G::MultiPolygon(vec![p.clone()]),
-            _ => G::Coll(vec![G::Polygon(vary_poly(p, sub))]),
+            _ => G::Coll(vec![if sub & 1 == 0 { as_simple_type(p) } else { G::Polygon(vary_poly(p, sub)) }]),
         },
         G::MultiPoint(v) => match which {
             0 if v.len() == 1 => G::Point(v[0]),
@@ -218,7 +249,8 @@ pub fn variant(g: &G, sel: u64) -> G {
                 r.reverse();
                 G::MultiPolygon(r)
             }
-            2 => G::Coll(v.iter().map(|p| G::Polygon(p.clone())).collect()),
+            // members as Rect / Triangle where they are one (a collection of different areal types)
+            2 => G::Coll(v.iter().enumerate().map(|(i, p)| if (sub >> i) & 1 == 0 { as_simple_type(p) } else { G::Polygon(p.clone()) }).collect()),
             _ => G::Coll(vec![g.clone()]),
         },
         G::Rect(a, b) => match which {
